@@ -94,6 +94,11 @@ func splitSlash(f []string) ([]string, []string) {
 	return f, nil
 }
 
+// farDeadline: every other live input (odd positions) is built with a deadline three days away instead of a bare cancel function
+func farDeadline(tok, val string) bool {
+	return tok == "0" && val != "" && (val[len(val)-1]-'0')%2 == 1 && val[len(val)-1] >= '0' && val[len(val)-1] <= '9'
+}
+
 func errBit(c context.Context) string {
 	if c.Err() != nil {
 		return "err=1"
@@ -124,6 +129,10 @@ func execCtx(t *trace, script []string) {
 			return c, cancel
 		}
 		c, cancel := context.WithCancel(context.WithValue(context.Background(), ctxKey("k"+val), "v"+val))
+		if farDeadline(tok, val) {
+			// a live input that ALSO has a (distant) deadline: it is still cancelled by its cancel function, long before that
+			c, cancel = context.WithDeadline(context.WithValue(context.Background(), ctxKey("k"+val), "v"+val), time.Now().Add(72*time.Hour))
+		}
 		all = append(all, cancel)
 		if tok == "1" {
 			cancel()
@@ -139,7 +148,11 @@ func execCtx(t *trace, script []string) {
 			inner, cancel = context.WithDeadline(inner, time.Now().Add(-time.Hour))
 			all = append(all, cancel)
 		} else if tok != "b" {
-			inner, cancel = context.WithCancel(inner)
+			if farDeadline(tok, val) {
+				inner, cancel = context.WithDeadline(inner, time.Now().Add(72*time.Hour))
+			} else {
+				inner, cancel = context.WithCancel(inner)
+			}
 			all = append(all, cancel)
 			if tok == "1" {
 				cancel()
